@@ -154,6 +154,8 @@ var exprPool = []string{
 	"func() { for i := 0; i < 2; i++ { if i { continue }; break } }",
 	// a selector applied directly to a number literal (legal: white space separates the tokens)
 	"1 .k", "0x1 .f", "1 .e1", "1.5.k",
+	// explicit parentheses around every kind of operand of a postfix form
+	"(1).k", "(a)", "(a.k)", "(f)(a)", "(func() { return 1 })()", "(a ? b : 1).k", "(-a).k", "(a + b).k", "(a + b)[0]", "(a + b)(1)", "(1)[0]", "({k: 1}).k", "([1])[0]",
 }
 
 var slotTemplates = []string{
